@@ -86,4 +86,19 @@ PROPS = {
             "exceptions raised by eval for a missing port / file-list-object input are excluded by precondition (welltyped)",
         ],
     },
+    "C06": {
+        "category": "other",
+        "harness_modes": ["crosscheck"],
+        "explanation": "Fragment. Proved for every instance size and every arrival order: CWLLoopOutputAllStep._process_output returns a fresh ListToken carrying the "
+        "instance's tag whose items are exactly the instance's values ordered by NUMERIC iteration index (iteration 10 after 9), and the empty list when no iteration ran; "
+        "CWLLoopOutputLastStep._process_output returns the value of the iteration with the greatest numeric index retagged with the instance's tag, and a null value when "
+        "no iteration ran. NOT decided here: LoopOutputStep.run (one output per loop instance, emitted when the instance is complete, never terminating early), "
+        "LoopCombinatorStep.run's checklist of running instances and the LoopCombinator generators (async generators / event loops outside the current subset); "
+        "the run-time check exercises only the two policies.",
+        "assumptions": [
+            "Token.__init__, ListToken.__init__ and Token.retag (self.__class__(...)) are assumed contracts (plain field assignments / reflection)",
+            "A-SORTED sorted(xs, key=k) returns a permutation of xs ordered by k (stable); the key lambda is evaluated as a pure specification",
+            "stream precondition wf_instance: one value per iteration index for each loop instance, indices parse as integers",
+        ],
+    },
 }
